@@ -449,6 +449,11 @@ struct Mixed {
                     ci.deflate.level = 6;
                     MX("SDsetcompress", SDsetcompress(sds, COMP_CODE_DEFLATE, &ci) == FAIL);
                 }
+                if (call_failed && no_reopen_after_failure) {
+                    // C16: the layout call reported a failure: the program only releases what it holds
+                    MX("SDendaccess", SDendaccess(sds) == FAIL);
+                    return true;
+                }
                 int32 start[3] = {0, 0, 0}, edge[3] = {dims[0] == SD_UNLIMITED ? 3 : dims[0], dims[1], dims[2]};
                 size_t cells = 1;
                 for (int j = 0; j < rank; j++)
@@ -490,6 +495,16 @@ struct Mixed {
             for (int j = 0; j < rank; j++)
                 cells *= (size_t)dims[j];
             int esz = DFKNTsize(nt);
+            // what the library says about the dataset goes into the transcript in any case; sizes no dataset of this workload
+            // has (the library answering from a file it could not read properly) are recorded, not allocated
+            bool sane = rank >= 0 && rank <= 3 && esz > 0 && cells <= 4096;
+            for (int j = 0; j < rank && j < 3; j++)
+                sane = sane && dims[j] >= 0;
+            if (!sane) {
+                ctx.tr(0xBADD1351ULL);
+                ctx.trb(dims, (size_t)std::max(0, std::min(rank, 8)) * 4);
+                cells = 0;
+            }
             if (k == "sdattr") {
                 int32 v[2] = {(int32)o.arg(1), (int32)o.arg(2)};
                 MX("SDsetattr", SDsetattr(sds, strf("att%d", modn(o.arg(3), 3)).c_str(), DFNT_INT32, 2, v) == FAIL);
